@@ -16,6 +16,9 @@ ASSUMPTIONS = ["the async_generator backport types are not in the alphabet",
                "a position whose thrown Probe does not come back out as Probe has no oracle and is counted, not judged"]
 
 
+RULE += ' Round 9: terminal kind `adaptor` (C iterator adaptors around a suspended generator; the adaptor is the leaf).'
+
+
 def legs(tier):
     from vlib.runner import Leg
     n = 2 if tier == "quick" else 8
